@@ -528,3 +528,34 @@ func revise(m *vs.Stream, p *pool, g geom.Geometry) (geom.Geometry, geom.Geometr
 	probe := geom.NewLineString(geom.NewSequence(pf, geom.DimXY)).AsGeometry()
 	return r, probe, true
 }
+
+// inDomain reports whether g may join the operand pool: the property
+// quantifies over C01's domain only — valid geometries whose ordinates are
+// lattice values with |c| <= 2^10, or general-position geometries whose joint
+// arrangement with the other operands keeps the stated clearance. A result of
+// an earlier call (say, a decoded foreign document with ordinates like 1e308,
+// or an overlay result with rational, non-lattice vertices) is usually NOT in
+// that domain, and outside it the library is allowed to fail in ways that
+// need not be reproducible.
+func (p *pool) inDomain(g geom.Geometry) bool {
+	seq := g.DumpCoordinates()
+	n := seq.Length()
+	for i := 0; i < n; i++ {
+		xy := seq.GetXY(i)
+		for _, c := range []float64{xy.X, xy.Y} {
+			if !(c >= -1024 && c <= 1024) {
+				return false
+			}
+			if !p.general {
+				q := c / p.lat.Unit
+				if q != float64(int64(q)) {
+					return false
+				}
+			}
+		}
+	}
+	if p.general {
+		return gen.ClearanceOK(append(append([]geom.Geometry(nil), p.geoms...), g), 1e-6)
+	}
+	return true
+}
